@@ -18,6 +18,7 @@ theorems are stated for streams in which nothing makes the Irc reconnect (`NoRec
 reconnect point is, by design, where chunk boundaries matter (`reconnect_drops_rest_of_chunk`).
 -/
 import LimnoriaModel.C11.Lemmas
+import LimnoriaModel.C11.Utf8
 namespace C11
 open Py
 
@@ -198,6 +199,17 @@ example : (runOps driverEnv init [.scriptRecv (.data (errLine ++ [LF] ++ pingLin
     (runOps driverEnv init [.scriptRecv (.data (errLine ++ [LF] ++ pingLine ++ [LF])), .loop]).wire = [] ∧
     (runOps driverEnv init [.scriptRecv (.data (errLine ++ [LF] ++ pingLine ++ [LF])), .loop]).pastWires = [[]] := by
   decide
+
+/-- **What is written is what is read**: decoding the encoding of any text gives the text back
+(the driver's `str.encode()` and `decode_raw_line` are inverse on encoded text), so a line sent by
+one bot is delivered to another as the message of exactly that text. -/
+theorem decode_encode (s : Str) : decode (utf8 s) = s := decode_utf8 s
+
+/-- the message a line carrying the text `s` is delivered as depends on `s` only -/
+theorem line_roundtrip (env : Env) (s : Str) (m : C05.Msg) (h : parseMsg env.timeOk s = .msg m) :
+    lineMsg env (utf8 s) = some m := by
+  unfold lineMsg
+  rw [decode_utf8, h]
 
 /-! ## exception flow -/
 
